@@ -136,7 +136,8 @@ def queue_rules(r, ctx, crate, adt, qfield, tag, regex):
                 "a popped entry can leave without the advance: path %s" % wit if okp and not ok1 else "advanced twice on a path" if okp and not once else "advance sites %s, other writes %s" % (sorted(inc_sites), other)))
     rms = [c for c in pop.calls if c.name == "remove" and describe_operand(pop, c.args[0]).endswith(".epoch_map")]
     for c in rms:
-        r.check("key" in describe_operand(pop, c.args[1]) or describe_operand(pop, c.args[1]).endswith(".0") or "k" == describe_operand(pop, c.args[1]), "%s/pop/remove-by-key" % tag, c.loc(), "the popped entry's key is removed from the index")
+        from_popped = any(s_[0] == "call" and s_[1].name == "pop_front" for s_ in pop.sources(c.args[1], stop_at_calls=False))
+        r.check(from_popped, "%s/pop/remove-by-key" % tag, c.loc(), "the key removed from the index is the popped entry's own key", "the key removed from the index does not come from the popped entry (%s)" % describe_operand(pop, c.args[1])[:60])
     rm_sites = {c.block for c in rms} | closure_sites(lambda cb: any(c.name == "remove" and describe_operand(cb, c.args[0]).endswith("epoch_map") and cb.must_pass([0], {c.block})[0] for c in cb.calls))
     vs = set()
     for si in pop.switches_on(lambda p, si: True):
